@@ -699,6 +699,9 @@ func exercise3(c *kase, s *subject3, rays, balls, points int) {
 	rng := c.Rng
 	for i := 0; i < rays; i++ {
 		o, d := genRay3(rng, s)
+		if rng.Intn(4) == 0 {
+			abandonEnumeration3(c, s, rng)
+		}
 		checkRay3(c, s, o, d)
 	}
 	for i := 0; i < balls; i++ {
@@ -751,4 +754,32 @@ func minPart3(sh ref.Shape3) float64 {
 		return math.Min(t.Size(), t.R)
 	}
 	return sh.Size()
+}
+
+type abandonSentinel struct{}
+
+// abandonEnumeration3 starts an enumeration of collisions and leaves it from inside the callback
+// (a panic that the caller recovers: the only way to stop RayCollisions early). What later
+// queries answer is a function of the collider and the ray only, so the checks that follow
+// must hold as if this call had never been made.
+func abandonEnumeration3(c *kase, s *subject3, rng *rand.Rand) {
+	o, d := genRay3(rng, s)
+	after := rng.Intn(3)
+	seen := 0
+	func() {
+		defer func() {
+			if e := recover(); e != nil {
+				if _, ok := e.(abandonSentinel); !ok {
+					panic(e)
+				}
+				c.Count("history.enumerations_abandoned_from_the_callback", 1)
+			}
+		}()
+		s.coll.RayCollisions(&model3d.Ray{Origin: o.C3(), Direction: d.C3()}, func(model3d.RayCollision) {
+			if seen == after {
+				panic(abandonSentinel{})
+			}
+			seen++
+		})
+	}()
 }
